@@ -819,11 +819,12 @@ void File::uncompressedFile2CompressedFile() {
     /* setup new log container */
     LogContainer logContainer;
 
-    /* copy data into LogContainer */
-    logContainer.uncompressedFile.resize(m_uncompressedFile.defaultLogContainerSize());
+    /* copy data into LogContainer (the size may be changed by the application at any time: ask for it once) */
+    const uint32_t logContainerSize = m_uncompressedFile.defaultLogContainerSize();
+    logContainer.uncompressedFile.resize(logContainerSize);
     m_uncompressedFile.read(
         reinterpret_cast<char *>(logContainer.uncompressedFile.data()),
-        m_uncompressedFile.defaultLogContainerSize());
+        logContainerSize);
     logContainer.uncompressedFileSize = static_cast<uint32_t>(m_uncompressedFile.gcount());
     logContainer.uncompressedFile.resize(logContainer.uncompressedFileSize);
 
